@@ -281,8 +281,12 @@ unsigned long CommandExecutor::nextVarint()
 
     do {
         readByte = nextByte();
-        result |= ((unsigned long)(readByte & 0x7F)) << shift;
-        shift += 7;
+        if (shift < sizeof(result) * 8) {
+            /* bits beyond the width of the result are dropped; the shift
+             * count stays below the width so the shift is always defined */
+            result |= ((unsigned long)(readByte & 0x7F)) << shift;
+            shift += 7;
+        }
     } while (readByte & 0x80);
 
     return result;
